@@ -222,7 +222,7 @@ func encodeInto(w *wr, p rtcp.Packet, d Dialect) error {
 		w.put("data", v.Data...)
 		if pad > 0 {
 			// RFC 3550 §6.4.1: the last padding octet counts the padding octets; the others are unspecified.
-			w.dontcare("padding", pad-1, byte(pad))
+			w.dontcare("padding", pad-1, 0)
 			w.u8("padding_count", uint8(pad))
 		}
 	case *rtcp.TransportLayerNack:
